@@ -100,6 +100,78 @@ def _accepts_all_reals(names: List[str]) -> bool:
     return ints and floats and np_int and np_float
 
 
+def _size_of_hyper(ana, fi, e, taint):
+    """`len(h)`, `h.shape[0]`, `h.size`, `numpy.size(h)` of a user hyper-parameter h -> the expression h, else None."""
+    if isinstance(e, ast.Call) and len(e.args) == 1 and not e.keywords:
+        r = ana.res.fq_of_expr(fi, e.func)
+        if r and r[1] in ("builtins.len", "numpy.size") and is_tainted(ana, fi, e.args[0], taint):
+            return e.args[0]
+    if isinstance(e, ast.Subscript) and isinstance(e.value, ast.Attribute) and e.value.attr == "shape" and unparse(e.slice) == "0" \
+            and is_tainted(ana, fi, e.value.value, taint):
+        return e.value.value
+    if isinstance(e, ast.Attribute) and e.attr == "size" and is_tainted(ana, fi, e.value, taint):
+        return e.value
+    return None
+
+
+def _shape_validations(ctx, ana, taint):
+    """A validation that raises on the *length* of an array-valued hyper-parameter narrows the set of accepted array forms.  The vector
+    form of the switching cost has one entry per stacked row (T - W + 1 for a series of T points): a guard that demands any other
+    length rejects the very vector that is equivalent to the scalar.  Decided for the single-series front end, where the demanded
+    length is a polynomial in T and W; any other length validation on a hyper-parameter is undecided."""
+    for fi in ana.prog.functions.values():
+        raises = [n for n in Resolver.walk_own(fi.node) if isinstance(n, ast.Raise)]
+        if not raises:
+            continue
+        try:
+            cfg = ana.cfg(fi)
+        except AnalysisError:
+            continue
+        for x in cfg.nodes:
+            if x.kind != "stmt" or not isinstance(x.ast, ast.Raise):
+                continue
+            for test, _pol, owner in cfg.guards(x):
+                for cmp_ in ast.walk(test):
+                    if not (isinstance(cmp_, ast.Compare) and len(cmp_.ops) == 1):
+                        continue
+                    sides = [cmp_.left, cmp_.comparators[0]]
+                    hs = [_size_of_hyper(ana, fi, e, taint) for e in sides]
+                    if hs[0] is None and hs[1] is None:
+                        continue
+                    other = sides[1] if hs[0] is not None else sides[0]
+                    h = hs[0] if hs[0] is not None else hs[1]
+                    if isinstance(other, ast.Constant) and other.value in (0, 1) and not isinstance(cmp_.ops[0], (ast.NotEq, ast.Eq)):
+                        continue          # emptiness tests do not constrain the length of a filled vector
+                    where = f"`{unparse(cmp_)}` guards the raise at line {x.ast.lineno} of {short(fi.qualname)}"
+                    if short(fi.qualname) != "front_end.ticc_labels" or unparse(h) != "label_switching_cost" \
+                            or not isinstance(cmp_.ops[0], ast.NotEq) or not _pol:
+                        raise AnalysisError(f"{where}: a length validation on a user hyper-parameter; the accepted array forms cannot be derived here")
+                    b = ana.builder(fi)
+                    t = b.term(other, cfg.stmt_node[id(owner)])
+                    T_ = tm.Idx(tm.Attr(Sym("data_series"), "shape"), (tm.ZERO,))
+                    W_ = Sym("window_size")
+                    rows = tm.add(tm.add(T_, tm.neg(W_)), tm.ONE)
+                    sub = {}
+                    for a in tm.subterms(t):
+                        if str(a) in ("stacked_training_data.shape[0]", "len(stacked_training_data)"):
+                            sub[a.key] = rows
+                        elif str(a) == "len(data_series)":
+                            sub[a.key] = T_
+                    t2 = tm.substitute(t, sub) if sub else t
+                    diff = tm.add(t2, tm.neg(rows))
+                    if diff == tm.ZERO:
+                        ctx.ok(fi, f"{where}: it demands one entry per stacked row, the length of the vector equivalent to a scalar", line=cmp_.lineno,
+                               role="validate:lsc-length")
+                        continue
+                    atoms = {a.key for a in tm.subterms(diff) if isinstance(a, (Sym, tm.Idx, tm.Attr, App))} - \
+                        {T_.key, W_.key, tm.Attr(Sym("data_series"), "shape").key, Sym("data_series").key}
+                    if atoms or not isinstance(diff, (Poly, tm.Lit)):
+                        raise AnalysisError(f"{where}: the demanded length `{t}` is not a polynomial in the series length and the window size")
+                    ctx.fail(fi, f"{where}: a per-pair switching-cost vector has one entry per stacked row (T - W + 1); demanding `{t}` entries rejects "
+                             "the vector that is equivalent to the scalar cost", line=cmp_.lineno, role="validate:lsc-length",
+                             expected=str(rows), found=str(t))
+
+
 @rule("C18", "R1", "DISPATCH", "type dispatch on a user hyper-parameter accepts every real scalar", floor=1, evidence=True)
 def r1(ctx):
     ana = ctx.ana
@@ -135,6 +207,7 @@ def r1(ctx):
                     seen += 1
                     ctx.ok(fi, f"`{unparse(n)}` classifies every real scalar (Python or NumPy) as a scalar", line=n.lineno,
                            role=f"{r[1]}@{short(fi.qualname)}")
+    _shape_validations(ctx, ana, taint)
     if seen == 0:
         ctx.ok("package", "no type dispatch on a user hyper-parameter anywhere (nothing can reject a scalar form)", role="none")
     ctx.note(f"taint: {sum(len(v) for v in taint.values())} parameters in {len([k for k, v in taint.items() if v])} functions may carry "
@@ -357,6 +430,9 @@ def _rewrite(t, f):
 @rule("C18", "R6", "AGREE", "the threshold Q that reaches the soft-threshold is one value for a scalar weight and for a matrix filled with it, on every path", floor=2)
 def r6(ctx):
     ana = ctx.ana
+    from . import c01, c02
+    ctx.sub(c02.r11, only=("entry:plumbing", "entry:bundle", "entry:solver"))   # the weight reaches the solver as given (a "symmetrised" matrix differs from the scalar)
+    ctx.sub(c01.r9, only=("handover:price",))            # the price reaches the kernel as given (no narrower buffer for one of the forms)
     fi = ana.func("admm.solver.admm_update_z")
     stp = ana.func("admm.solver.soft_threshold_prox")
     b = ana.builder(fi, no_inline=lambda f: f.qualname == stp.qualname)
